@@ -61,7 +61,12 @@ OPS = ["add_objects", "commit_tree", "porcelain_commit", "ref_set", "ref_cas",
        "index_write", "config_write", "commit_graph", "midx", "fetch_local",
        "tag_create", "branch_delete_packed", "two:commit+pack_refs",
        "two:add_pack+gc", "detach_head", "attach_head", "stash_push",
-       "stash_push_second"]
+       "stash_push_second",
+       # round 5: the server's receive-pack, the in-process push, and more
+       # porcelain that moves refs, index and objects together
+       "receive_pack", "receive_pack_atomic", "push_local", "stash_pop",
+       "stash_drop", "reset_hard", "notes_add", "repack_bitmaps",
+       "tag_delete", "branch_create"]
 
 
 REDO_OPS = ("add_objects", "add_thin_pack", "add_pack", "fetch_local")
@@ -293,12 +298,68 @@ def run_op(name, r, sc, plan):
     elif name == "branch_delete_packed":
         r.refs.pack_refs(all=True)
         del r.refs[b"refs/heads/b0"]
+    elif name in ("receive_pack", "receive_pack_atomic"):
+        _receive_pack(r, sc, atomic=name.endswith("atomic"))
+    elif name == "push_local":
+        from dulwich.repo import Repo as _Repo
+        src = _Repo(sc.remote_path)
+        try:
+            porcelain.push(src, sc.path,
+                           [b"refs/heads/b0:refs/heads/b0",
+                            b"refs/heads/b0:refs/heads/pushed",
+                            b":refs/heads/old"],
+                           outstream=io.BytesIO(), errstream=io.BytesIO())
+        finally:
+            src.close()
+    elif name == "stash_pop":
+        porcelain.stash_pop(r)
+    elif name == "stash_drop":
+        porcelain.stash_drop(r, 0)
+    elif name == "reset_hard":
+        porcelain.reset(r, "hard", sc.hist["commits"][0])
+    elif name == "notes_add":
+        porcelain.notes_add(r, sc.hist["commits"][-1], b"a note\n",
+                            author=H.IDENT, committer=H.IDENT)
+    elif name == "repack_bitmaps":
+        u.add_to_store(st, sc.new_ids)
+        porcelain.repack(r, write_bitmaps=True)
+    elif name == "tag_delete":
+        tags = sorted(k for k in r.refs.allkeys()
+                      if k.startswith(b"refs/tags/"))
+        if tags:
+            porcelain.tag_delete(r, tags[0][len(b"refs/tags/"):])
+        else:
+            del r.refs[b"refs/heads/old"]
+    elif name == "branch_create":
+        porcelain.branch_create(r, b"created", objectish=sc.hist["commits"][0])
     elif name.startswith("two:"):
         a, b = name[4:].split("+")
         run_op({"commit": "commit_tree"}.get(a, a), r, sc, plan)
         run_op(b, r, sc, plan)
     else:
         raise ValueError(name)
+
+
+def _receive_pack(r, sc, atomic):
+    """A push as the server sees it: three commands (update, create, delete)
+    and the pack, through ReceivePackHandler."""
+    from dulwich.protocol import ReceivableProtocol, pkt_line
+    from dulwich.server import DictBackend, ReceivePackHandler
+    z = b"0" * 40
+    b0 = r.refs[b"refs/heads/b0"]
+    old = r.refs[b"refs/heads/old"]
+    caps = b"report-status delete-refs" + (b" atomic" if atomic else b"")
+    req = (pkt_line(b0 + b" " + sc.newc + b" refs/heads/b0\0" + caps) +
+           pkt_line(z + b" " + sc.newc + b" refs/heads/pushed") +
+           pkt_line(old + b" " + z + b" refs/heads/old") + b"0000")
+    inp = io.BytesIO(req + _pack_bytes(sc.u, sc.new_ids))
+    out = []
+    proto = ReceivableProtocol(inp.read, out.append, rbufsize=4096)
+    h = ReceivePackHandler(DictBackend({b"/": r}), [b"/"], proto)
+    h.handle()
+    reply = b"".join(out)
+    if b"unpack ok" not in reply or b"ng " in reply:
+        raise RuntimeError(f"push refused: {reply[-300:]!r}")
 
 
 # ------------------------------------------------------ recovery checker
@@ -525,21 +586,25 @@ def run_plan(plan):
                                   "shuffle_listdir": False})
         simfs.activate(fs)
         sc = build(plan, root)
-        if plan["op"] == "fetch_local":
-            # a second repository to fetch from
+        if plan["op"] in ("fetch_local", "push_local"):
+            # a second repository to fetch from / push from
             sc.remote_path = os.path.join(root, "remote")
             rr = util.init_repo(sc.remote_path, bare=True)
             sc.u.add_to_store(rr.object_store, sorted(sc.u.closure([sc.newc])))
             rr.refs[b"refs/heads/b0"] = sc.newc
             rr.refs[b"refs/heads/side"] = sc.hist["commits"][0]
             rr.close()
-        if plan["op"] == "stash_push_second":
+        if plan["op"] in ("stash_push_second", "stash_pop", "stash_drop"):
             # an earlier stash: refs/stash has an old value worth keeping
             from dulwich import porcelain
             with open(os.path.join(sc.path, "w1.txt"), "ab") as f:
                 f.write(b"first stashed change\n")
             rr = Repo(sc.path)
             porcelain.stash_push(rr)
+            if plan["op"] == "stash_drop":
+                with open(os.path.join(sc.path, "w1.txt"), "ab") as f:
+                    f.write(b"second stashed change\n")
+                porcelain.stash_push(rr)
             rr.close()
         rp = sc.path
         old_refs = refs_raw(rp)
